@@ -529,3 +529,107 @@ Lemma unknown_budget_refuted :
   unknown_cost f6_op f6_lens false U64_MAX = Ok 2375088102 /\
   unknown_cost f6_op f6_lens false 3000000000 = Err CostExceeded.
 Proof. vm_compute. split; reflexivity. Qed.
+
+(* ================= C06: the MALACHITE backend ================= *)
+
+(* what the wrappers need from the second bignum library *)
+Definition lib_ok (L : bigint_lib) : Prop :=
+  (forall b, bl_of_bytes L b = int_of_bytes b) /\
+  (forall z, bl_to_bytes L z = bytes_of_int z) /\
+  (forall z, bl_is_zero L z = (z =? 0)%Z) /\
+  (forall z, bl_is_neg L z = (z <? 0)%Z) /\
+  (forall a b, b <> 0%Z -> bl_div_floor L a b = (a / b)%Z) /\
+  (forall a b, b <> 0%Z -> bl_mod_floor L a b = (a mod b)%Z) /\
+  (forall b e m, (0 <= e)%Z -> m <> 0%Z -> bl_modpow L b e m = modpow b e m).
+
+Lemma malachite_lib_ok : lib_ok malachite_lib.
+Proof. repeat split. Qed.
+
+Ltac twin_start :=
+  intros (Hof & Hto & Hz & Hn & Hd & Hm & Hp) f a m;
+  cbv beta delta [op_div_malachite_with op_divmod_malachite_with op_mod_malachite_with op_modpow_malachite_with
+                  op_div_num op_divmod_num op_mod_num op_modpow_num malachite_int_atom_lazy int_atom_lazy];
+  cbv zeta.
+
+Lemma div_twins L : lib_ok L -> forall f a m, op_div_malachite_with L f a m = op_div_num f a m.
+Proof.
+  twin_start.
+  destruct (get_args2 a) as [[v0 v1]|e]; cbn [bind]; [|reflexivity].
+  destruct v0 as [b0|]; cbn [bind]; [|reflexivity]. destruct v1 as [b1|]; cbn [bind]; [|reflexivity].
+  destruct (_ && _ && _); [reflexivity|]. destruct (_ && _ && _); [reflexivity|].
+  destruct (if f_new_cost_model f then _ else _) as [cost|e]; cbn [bind]; [|reflexivity].
+  destruct (check_cost cost m); cbn [bind]; [|reflexivity].
+  rewrite !Hof, Hz. destruct (int_of_bytes b1 =? 0)%Z eqn:E0; [reflexivity|].
+  rewrite Hd, Hto by (apply Z.eqb_neq; exact E0). reflexivity.
+Qed.
+
+Lemma divmod_twins L : lib_ok L -> forall f a m, op_divmod_malachite_with L f a m = op_divmod_num f a m.
+Proof.
+  twin_start.
+  destruct (get_args2 a) as [[v0 v1]|e]; cbn [bind]; [|reflexivity].
+  destruct v0 as [b0|]; cbn [bind]; [|reflexivity]. destruct v1 as [b1|]; cbn [bind]; [|reflexivity].
+  destruct (_ && _ && _); [reflexivity|]. destruct (_ && _ && _); [reflexivity|].
+  destruct (if f_new_cost_model f then _ else _) as [cost|e]; cbn [bind]; [|reflexivity].
+  destruct (check_cost cost m); cbn [bind]; [|reflexivity].
+  rewrite !Hof, Hz. destruct (int_of_bytes b1 =? 0)%Z eqn:E0; [reflexivity|].
+  rewrite Hd, Hm, !Hto by (apply Z.eqb_neq; exact E0). reflexivity.
+Qed.
+
+Lemma mod_twins L : lib_ok L -> forall f a m, op_mod_malachite_with L f a m = op_mod_num f a m.
+Proof.
+  twin_start.
+  destruct (get_args2 a) as [[v0 v1]|e]; cbn [bind]; [|reflexivity].
+  destruct v0 as [b0|]; cbn [bind]; [|reflexivity]. destruct v1 as [b1|]; cbn [bind]; [|reflexivity].
+  destruct (_ && _ && _); [reflexivity|]. destruct (_ && _ && _); [reflexivity|].
+  destruct (if f_new_cost_model f then _ else _) as [cost|e]; cbn [bind]; [|reflexivity].
+  destruct (check_cost cost m); cbn [bind]; [|reflexivity].
+  rewrite !Hof, Hz. destruct (int_of_bytes b1 =? 0)%Z eqn:E0; [reflexivity|].
+  rewrite Hm, Hto by (apply Z.eqb_neq; exact E0). reflexivity.
+Qed.
+
+Lemma modpow_twins L : lib_ok L -> forall f a m, op_modpow_malachite_with L f a m = op_modpow_num f a m.
+Proof.
+  twin_start.
+  destruct (get_args3 a) as [[[v0 v1] v2]|e]; cbn [bind]; [|reflexivity].
+  destruct v0 as [b0|]; cbn [bind]; [|reflexivity]. destruct v1 as [b1|]; cbn [bind]; [|reflexivity].
+  destruct v2 as [b2|]; cbn [bind]; [|reflexivity].
+  destruct (compute_modpow_cost _ _ _ _) as [cost|e]; cbn [bind]; [|reflexivity].
+  destruct (check_cost cost m); cbn [bind]; [|reflexivity].
+  destruct (_ && _ && _); [reflexivity|].
+  rewrite !Hof, Hn, Hz. destruct (int_of_bytes b1 <? 0)%Z eqn:En; [reflexivity|].
+  destruct (int_of_bytes b2 =? 0)%Z eqn:E0; [reflexivity|].
+  rewrite Hp, Hto; [reflexivity|apply Z.ltb_ge; exact En|apply Z.eqb_neq; exact E0].
+Qed.
+
+(* the exported operators do not depend on the MALACHITE flag *)
+Lemma switch_malachite (opm opn : opfn) :
+  (forall f a m, opm f a m = opn f a m) ->
+  (forall f f' a m, same_but_malachite f f' -> opn f a m = opn f' a m) ->
+  op_malachite_indep (fun f a m => if f_malachite f then opm f a m else opn f a m).
+Proof.
+  intros Heq Hn f f' a m Hs. rewrite !Heq. destruct (f_malachite f), (f_malachite f'); apply Hn; exact Hs.
+Qed.
+
+Ltac same_flags Hs :=
+  destruct Hs as (H1 & H2 & H3 & H4 & H5 & H6 & H7 & H8 & H9 & H10 & H11 & H12).
+
+Lemma div_malachite_indep : op_malachite_indep op_div.
+Proof.
+  apply switch_malachite; [apply div_twins, malachite_lib_ok|].
+  intros f f' a m Hs. same_flags Hs. unfold op_div_num. rewrite H7, H9, H12. reflexivity.
+Qed.
+Lemma divmod_malachite_indep : op_malachite_indep op_divmod.
+Proof.
+  apply switch_malachite; [apply divmod_twins, malachite_lib_ok|].
+  intros f f' a m Hs. same_flags Hs. unfold op_divmod_num. rewrite H7, H9, H12. reflexivity.
+Qed.
+Lemma mod_malachite_indep : op_malachite_indep op_mod.
+Proof.
+  apply switch_malachite; [apply mod_twins, malachite_lib_ok|].
+  intros f f' a m Hs. same_flags Hs. unfold op_mod_num. rewrite H7, H9, H12. reflexivity.
+Qed.
+Lemma modpow_malachite_indep : op_malachite_indep op_modpow.
+Proof.
+  apply switch_malachite; [apply modpow_twins, malachite_lib_ok|].
+  intros f f' a m Hs. same_flags Hs. unfold op_modpow_num. rewrite H7, H12. reflexivity.
+Qed.
